@@ -48,6 +48,9 @@ def setup(c):
                      "every schedule of start/issue/arrive events for 1..3 actors of kinds {GetTimestamp, ValidateReadTS of the newest issued ts, of the next ts, of a far-future ts, "
                      "one tick of the REAL background updater goroutine (updateTS/doUpdate, triggered through its own loop by an add-only export; its PD response is held like any other)} "
                      "(quick; 4 callers: every issue/arrival order after all have called; thorough: 4 callers fully interleaved for kinds {get, validate-next}, every kind mix with starts first), "
+                     "cancellation: callers whose context the script may cancel at any point while they run (before PD issues, while the response is pending, while waiting for a flight, after completion) — "
+                     "every schedule for 1..2 such actors and selected 3-actor mixes (thorough: all 3-actor mixes over {get, validate-next} with >= 1 cancellable, plus selected mixes with the other kinds and the updater); the scripted PD honours the "
+                     "context of the request it serves; property: a call may only fail if its OWN context was cancelled (a live validate call of an issued ts must be accepted); "
                      "seeded random schedules with 2..8 actors (half of the worlds with the updater), async calls, stale-read flag, PD jumps across physical boundaries; after every op the model must predict "
                      "the returned value / verdicts / cached ts; `check` evaluates the property on the implementation's own observations "
                      "(cached ts monotone and <= max issued, real-time order of returned ts, accept => readTS <= issued at end, reject => readTS > issued before the call); "
@@ -60,7 +63,8 @@ def setup(c):
         "expired_iff_until_nonpos is proved (and p-exp generated) for TTL < 2^63 - 2^46 ms, where int64(TTL) and the addition do not wrap; outside that range the code's two answers disagree "
         "(theorem expired_overflow_corner; correspondence ops isexp/until still cover it)",
         "ValidateReadTS(MaxUint64, non-stale) returns nil by design (read-latest sentinel); it is a correspondence op, not part of validate_rejects_future",
-        "PD never fails and contexts are never cancelled in the model; GetStaleTimestamp and the arrival-time field are not modelled",
+        "PD never fails in the model; context cancellation is modelled for client calls blocked at PD or on a flight (cancel/abort actions; flights run under context.Background(), the updater under context.TODO()); "
+        "GetStaleTimestamp and the arrival-time field are not modelled",
         "background updater: one tick (Range over the map, getTimestamp, setLastTS) is an actor of the model and of the schedules; the harness makes the real updateTS loop run doUpdate through its shrink-interval branch "
         "(export VerifTriggerUpdate) with an hour-long ticker period; the ticker timing itself and the interplay of stale-read signals with the ticker are not modelled (stale-flagged validations are not generated in worlds with the updater)",
         "the load/CAS window of setLastTS is covered by the theorems (all interleavings of the model's steps) and by the free-running stress op only: the harness cannot pause a goroutine inside setLastTS without a source hook",
